@@ -473,6 +473,24 @@ def run(ctx):
     extras2(ctx)
     ctx.flush()
 
+# ---- round-5 lesson: results depend on the content of the array, not on the identity of the array object ---------------------------------
+
+def extras_refill(ctx):
+    from eqsig.fns import peaks_and_crossings as pc
+    gen.refill_oracle(ctx, 'C12 the same ndarray object changed in place and analysed again gives the indices of its CURRENT content (%s)',
+                      {'get_zero_crossings_array_indices': pc.get_zero_crossings_array_indices, 'get_switched_peak_array_indices': pc.get_switched_peak_array_indices,
+                       'switched, tol=0.5': lambda x: pc.get_switched_peak_array_indices(x, tol=0.5)},
+                      ctx.rng, lambda rng: gen.int_record(rng, 24, -5, 5), n_rep=4 if ctx.tier == 'quick' else 40)
+
+
+_run_main_rf = run
+
+
+def run(ctx):
+    _run_main_rf(ctx)
+    extras_refill(ctx)
+    ctx.flush()
+
 
 # evidence: how the model is tied to the source on every run (as built, supersedes the value above)
 TIE = 'translator (zero crossings incl. the tol loop, switched-peak grouping loop -> Gen/CrossingsFns; Props/C12Gen) + correspondence (exhaustive, exact)'
